@@ -6,7 +6,7 @@ import re
 
 from ..odemodel import model, FILE, Y
 from ..pymodel import package
-from ..valueflow import Flow, as_map, lower, match, V, show, simp, subst
+from ..valueflow import Flow, as_map, lower, match, V, show, simp, subst, walk
 from .c01 import report_problems, guards_ok, site_key, where
 
 EXPLANATION = (
@@ -20,7 +20,10 @@ EXPLANATION = (
     "option parser, the example data, the example command and the template loader; R6 the --ode-modifier parser accumulates: an entry is "
     "created only for a species seen for the first time and every term is appended to that entry (no update/overwrite/re-binding); R7 every "
     "store of a modifier table anywhere in the package (Network, configuration, commands) stores the whole table received -- nothing between "
-    "the user and _prepare_ode_content filters or rewrites it.")
+    "the user and _prepare_ode_content filters or rewrites it (also not a helper between network.rate_modifier and the generator: R3); R1 also: the "
+    "reaction to override is not looked up in a table with one slot per file index; R2 also: idxfromfile is written by the reaction parsers and by "
+    "Network.reindex only, and never chosen by the truthiness of the raw index (0 is an index).  Verdicts: VIOLATION only for a construct that was "
+    "reconstructed completely and differs from the requirement; an arrangement that is not read answers UNRECOGNISED.")
 ASSUMPTIONS = [
     "the Jacobian part of a modifier is C02.R1/R2",
     "option values containing the separators ':' ',' ';' are C20's residual",
@@ -76,6 +79,7 @@ def _r6(ctx):
         ctx.missing("R6", "--ode-modifier loop", (INIT, ih.lineno), f"expected one loop over the --ode-modifier occurrences, found {len(loops)}")
         return
     problems, entry_alias, appends, creates = [], set(), set(), 0
+    unsure = []
 
     def absent_guard(test, pol):
         """does (test, polarity) say `key is not in D yet`?"""
@@ -108,6 +112,9 @@ def _r6(ctx):
                         if isinstance(t, ast.Subscript) and re.fullmatch(D, ast.unparse(t.value)):
                             if any(absent_guard(g, p_) for g, p_ in guards):
                                 creates += 1
+                            elif any(Dn in ast.unparse(g) or any(re.fullmatch(D, x.id) for x in ast.walk(g) if isinstance(x, ast.Name)) for g, _ in guards):
+                                # under a test on the table that is spelled another way (`.get(k) is None`, a count, ..): not read here
+                                unsure.append((n.lineno, f"`{ast.unparse(t)} = ...` stands under `{ast.unparse(guards[-1][0])[:60]}`, which this rule does not read as `species not seen yet`"))
                             else:
                                 problems.append((n.lineno, f"`{ast.unparse(t)} = ...` is not restricted to a species seen for the first time: it replaces the terms collected so far for that species"))
                     if isinstance(n.value, ast.Call) and isinstance(n.value.func, ast.Attribute) and n.value.func.attr == "setdefault" and re.fullmatch(D, ast.unparse(n.value.func.value)) \
@@ -116,7 +123,9 @@ def _r6(ctx):
                         creates += 1
                 if isinstance(n, ast.Call) and isinstance(n.func, ast.Attribute):
                     base = ast.unparse(n.func.value)
-                    if n.func.attr in ("update", "clear", "pop", "popitem", "__setitem__") and re.fullmatch(D, base):
+                    if n.func.attr in ("update", "__setitem__") and re.fullmatch(D, base) and any(absent_guard(g, p_) for g, p_ in guards):
+                        creates += 1              # a new entry for a species seen for the first time, spelled as a call
+                    elif n.func.attr in ("update", "clear", "pop", "popitem", "__setitem__") and re.fullmatch(D, base):
                         problems.append((n.lineno, f"`{Dn}.{n.func.attr}(...)` replaces whole entries: when a species is named in two --ode-modifier occurrences only the terms of the last one survive"))
                     if n.func.attr in ("append", "extend"):
                         m_ = re.fullmatch(rf"(?:{D}\[\w+\]|(\w+))\[['\"](\w+)['\"]\]", base)
@@ -127,10 +136,15 @@ def _r6(ctx):
     w = (INIT, loops[0].lineno)
     for ln, msg in problems:
         ctx.bad("R6", f"--ode-modifier: accumulate:{msg.split(':')[0][:50]}", (INIT, ln), msg, expected="append to the lists of the species' single entry")
-    if not problems:
+    for ln, msg in unsure:
+        ctx.unrec("R6", "--ode-modifier: accumulate", (INIT, ln), msg)
+    if not problems and not unsure:
         ctx.ok("R6", "--ode-modifier: accumulate", w, "entries are only created for a species seen for the first time; nothing replaces an entry")
-    ctx.check(creates >= 1 and {"factors", "reactants"} <= appends, "R6", "--ode-modifier: terms appended to the species' own entry", w,
-              "factor and dependency list of every term are appended to dict[species]", expected="appends to ['factors'] and ['reactants'] of ode_modifier[key]", found=f"creates={creates} appends={sorted(appends)}")
+    if creates >= 1 and {"factors", "reactants"} <= appends:
+        ctx.ok("R6", "--ode-modifier: terms appended to the species' own entry", w, "factor and dependency list of every term are appended to dict[species]")
+    elif not problems:
+        # nothing found that REPLACES an entry, and the appends were not found either: the accumulation is spelled in a way this rule does not read
+        ctx.unrec("R6", "--ode-modifier: terms appended to the species' own entry", w, f"the appends to ['factors'] / ['reactants'] of the species' entry were not found (creates={creates} appends={sorted(appends)})")
 
 
 # ------------------------------------------------------------------ R7  the tables are carried, never rewritten, between user and generator
@@ -196,7 +210,9 @@ def _r7(ctx):
                                 n += 1
                                 key = f"{qual}:{ast.unparse(t)}"
                                 val = _helpers_inlined(pkg, f, qual.split(".")[0] if "." in qual else None, ch.value) if ch.value is not None else None
-                                whole = val is not None and _whole_copy(val) and not isinstance(ch, ast.AugAssign)
+                                from .c20 import carries_whole
+                                verdict = carries_whole(val) if val is not None and not isinstance(ch, ast.AugAssign) else ("unknown", "augmented assignment")
+                                whole = verdict[0] == "ok"
                                 owner_self = isinstance(t.value, ast.Name) and t.value.id == "self"
                                 if whole:
                                     ctx.ok("R7", key, (f, ch.lineno), "the whole table is stored (copy)")
@@ -227,10 +243,12 @@ def _r7(ctx):
                                         ctx.ok("R7", key, (f, ch.lineno), f"`{ast.unparse(val.func)}(..)` hands back the whole table on every return")
                                     else:
                                         ctx.unrec("R7", key, (f, ch.lineno), f"the table is stored through the helper `{ast.unparse(val.func)}(..)`, whose body this rule cannot reduce to an expression")
-                                else:
+                                elif verdict[0] == "filtered":
                                     ctx.bad("R7", key, (f, ch.lineno), ("the network's modifier table is replaced by a rewritten one" if not owner_self else "the stored modifier table is not the whole table given") +
-                                            ": entries the user supplied can vanish between the configuration file and the generator (keys are matched against idxfromfile only inside "
+                                            f" ({verdict[1]}): entries the user supplied can vanish between the configuration file and the generator (keys are matched against idxfromfile only inside "
                                             "_prepare_ode_content, after re-indexing)", expected="X.copy() of the table received", found=ast.unparse(val)[:120] if val is not None else "")
+                                else:
+                                    ctx.unrec("R7", key, (f, ch.lineno), f"cannot tell whether the whole modifier table is stored: {verdict[1]}")
                     visit(ch, qual)
         visit(mod, "")
     ctx.floor("R7", "stores of a modifier table", n, 8)
@@ -245,7 +263,16 @@ def _r7(ctx):
                 v = v.func.value if isinstance(v.func, ast.Attribute) and v.func.attr == "copy" and not v.args else v.args[0]
             return v
         ok = bool(rets) and all(x.value is not None and _whole_copy(x.value) and ast.unparse(bare(x.value)) == f"self.{store}" for x in rets)
-        ctx.check(ok, "R7", f"Network.{attr} getter", (NETWORK, getters[0].lineno if getters else 0), "the property returns the stored table", expected=f"return self.{store}")
+        # understood and wrong: a return of ANOTHER stored table, or of a filtered view; anything else (a proxy, a local) is not read here
+        from .c20 import carries_whole
+        sure = bool(rets) and any(x.value is not None and ((_whole_copy(x.value) and ast.unparse(bare(x.value)).startswith("self._") and ast.unparse(bare(x.value)) != f"self.{store}")
+                                                            or carries_whole(x.value)[0] == "filtered") for x in rets)
+        if ok:
+            ctx.ok("R7", f"Network.{attr} getter", (NETWORK, getters[0].lineno), "the property returns the stored table")
+        elif sure:
+            ctx.bad("R7", f"Network.{attr} getter", (NETWORK, getters[0].lineno), "the property does not return the stored table", expected=f"return self.{store}", found="; ".join(ast.unparse(x.value)[:60] for x in rets if x.value is not None))
+        else:
+            ctx.unrec("R7", f"Network.{attr} getter", (NETWORK, getters[0].lineno if getters else 0), "the getter's return value is not an expression this rule reads: " + "; ".join(ast.unparse(x.value)[:60] for x in rets if x.value is not None))
 
 
 def _r1(ctx, m):
@@ -271,23 +298,47 @@ def _r1(ctx, m):
         stored[id(f)] = v
     _truthiness_selection(ctx, m, [(stored[id(f)], f.line) for f in stores if stored[id(f)] is not f.value])
     if len(stores) != 1:
-        (ctx.bad if stores else ctx.missing)("R1", "rateeqns:writers", W,
-                                             f"expected exactly one override store into rateeqns, found {len(stores)} ({[f.kind + '@' + str(f.line) for f in stores]})")
+        # several writers (or none): the arrangement is not the one read below -- each writer found is still judged on its own
+        (ctx.unrec if stores else ctx.missing)("R1", "rateeqns:writers", W,
+                                               f"expected exactly one override store into rateeqns, found {len(stores)} ({[f.kind + '@' + str(f.line) for f in stores]})")
     RM = ("param", "rate_modifier")
     for f in stores:
         w = (FILE, f.line)
         if f.kind != "store":
-            ctx.bad("R1", f"rateeqns:{f.kind}", w, f"rateeqns is modified by `{f.kind}`, which moves or adds entries instead of replacing entry i")
+            if f.kind in ("remove", "mutate") or (f.op in ("insert", "pop", "remove", "sort", "reverse")):
+                ctx.bad("R1", f"rateeqns:{f.kind}", w, f"rateeqns is modified by `{f.op or f.kind}`, which moves or drops entries: statement i no longer belongs to reaction i")
+            else:
+                ctx.unrec("R1", f"rateeqns:{f.kind}", w, f"rateeqns is modified by `{f.op or f.kind}` instead of a store into entry i: not read here")
             continue
         loops = list(f.loops)
         its = [simp(l.iter) for l in loops]
         enum = [l for l, it in zip(loops, its) if it == ("call", ("global", "enumerate"), (m.REAC,), ())]
         items = [l for l, it in zip(loops, its) if it == ("meth", RM, "items", (), ())]
         ok_loops = len(loops) == 2 and len(enum) == 1 and len(items) == 1
-        ctx.check(ok_loops, "R1", "override:loops", w,
-                  "the override store sits in the full product of enumerate(reactions) x rate_modifier.items() (every reaction meets every key)",
-                  expected="for idx, reac in enumerate(reactions): for key, value in rate_modifier.items():",
-                  found="; ".join(show(i)[:70] for i in its))
+        # understood and wrong: one of the loops runs over a recognisably partial view (a slice, a filtered comprehension) of the
+        # reactions / of the modifier table; any other arrangement (a lookup `rate_modifier.get(..)`, a helper, ..) is not read here
+        def partial(it):
+            if it[0] == "call" and it[1] == ("global", "enumerate") and it[2]:
+                return partial(it[2][0])
+            if it[0] == "sub" and it[2][0] == "slice":
+                return True
+            if it[0] == "filtered":
+                return True
+            mm = as_map(it) if it[0] in ("comp", "copy") else None
+            return bool(mm) and bool(mm[3])
+        if ok_loops:
+            ctx.ok("R1", "override:loops", w, "the override store sits in the full product of enumerate(reactions) x rate_modifier.items() (every reaction meets every key)")
+        elif any(partial(it) for it in its):
+            ctx.bad("R1", "override:loops", w, "the override loops run over part of the reactions / of the modifier table only",
+                    expected="for idx, reac in enumerate(reactions): for key, value in rate_modifier.items():", found="; ".join(show(i)[:70] for i in its))
+        elif _index_keyed_tables(m.func):
+            # understood and wrong: the reaction to override is looked up in a table with ONE slot per file index
+            ln_, src_ = _index_keyed_tables(m.func)[0]
+            ctx.bad("R1", "override:loops", (FILE, ln_), f"the reaction to override is looked up in `{src_}`, a table keyed by the file index with one slot per index: of several "
+                    "reactions carrying the same index (one reaction split over temperature ranges) only the last gets the new rate, the others keep their tabulated one",
+                    expected="every (reaction, modifier) pair is compared: for idx, reac in enumerate(reactions): for key, value in rate_modifier.items():", found=src_)
+        else:
+            ctx.unrec("R1", "override:loops", w, "the override store does not sit in the product enumerate(reactions) x rate_modifier.items(): " + "; ".join(show(i)[:70] for i in its))
         if not ok_loops:
             continue
         L1, L2 = enum[0].id, items[0].id
@@ -296,10 +347,25 @@ def _r1(ctx, m):
         want_guard = ("cmp", ("Eq",), (("key", RM, L2), ("attr", reac, "idxfromfile")))
         g = [(simp(c), p) for c, p in f.guards]
         g_ok = len(g) == 1 and g[0][1] is True and (g[0][0] == want_guard or g[0][0] == ("cmp", ("Eq",), (want_guard[2][1], want_guard[2][0])))
-        ctx.check(g_ok, "R1", "override:guard", w, "an override applies iff key == reac.idxfromfile (equality, same reaction)",
-                  expected="if key == reac.idxfromfile", found="; ".join(("" if p else "not ") + show(c)[:90] for c, p in g))
-        ctx.check(simp(f.index) == idx, "R1", "override:slot", w, "the replaced entry is rateeqns[idx] of the same reaction's enumerate index",
-                  expected="rateeqns[idx]", found=show(simp(f.index)))
+        # understood and wrong: conditions made of comparisons / attributes / loop variables only that differ from the one required; a
+        # condition that goes through a call (a predicate helper, a membership test in a computed set) is not read here
+        from ..valueflow import walk as _walk
+        plain = lambda v: not any(isinstance(x, tuple) and x and x[0] in ("call", "meth", "unknown", "acc", "carried", "lambda") for x in _walk(v))
+        g_sure = all(plain(c) for c, _ in g)
+        if g_ok:
+            ctx.ok("R1", "override:guard", w, "an override applies iff key == reac.idxfromfile (equality, same reaction)")
+        elif g_sure:
+            ctx.bad("R1", "override:guard", w, "an override applies iff key == reac.idxfromfile (equality, same reaction)",
+                    expected="if key == reac.idxfromfile", found="; ".join(("" if p else "not ") + show(c)[:90] for c, p in g))
+        else:
+            ctx.unrec("R1", "override:guard", w, "the condition of the override is not a plain comparison this rule reads: " + "; ".join(("" if p else "not ") + show(c)[:90] for c, p in g))
+        fi = simp(f.index)
+        if fi == idx:
+            ctx.ok("R1", "override:slot", w, "the replaced entry is rateeqns[idx] of the same reaction's enumerate index")
+        elif plain(fi):
+            ctx.bad("R1", "override:slot", w, "the replaced entry is rateeqns[idx] of the same reaction's enumerate index", expected="rateeqns[idx]", found=show(fi))
+        else:
+            ctx.unrec("R1", "override:slot", w, f"the index of the replaced entry is not read here: {show(fi)[:100]}")
         from ..valueflow import peval
         sv = simp(peval(stored[id(f)], {}))         # (conditions on constant arguments, e.g. a defaulted parameter, are decided)
         lw = lower(sv)
@@ -318,10 +384,55 @@ def _r1(ctx, m):
                       expected="k[{idx}] = {value};", found=lw.text)
         # no early exit from either loop
         # `continue` only skips the rest of one iteration (a guard clause); what leaves a loop early is break / return
-        brk = [x for x in fl.facts if x.kind in ("break", "return") and any(l.id in (L1, L2) for l in x.loops)]
+        # what ends the pass over the REACTIONS early: a return inside either loop, or a break whose innermost loop is the reactions
+        # loop.  (A break out of the loop over the modifier keys only skips the remaining keys for this reaction: the keys of a table
+        # are distinct, no other key can match.)
+        brk = [x for x in fl.facts if (x.kind == "return" and any(l.id in (L1, L2) for l in x.loops)) or
+               (x.kind == "break" and x.loops and x.loops[-1].id == L1)]
         ctx.check(not brk, "R1", "override:no-early-exit", (FILE, brk[0].line if brk else f.line),
-                  "neither loop is left early: reactions sharing an index are all overridden",
+                  "the pass over the reactions is not left early: reactions sharing an index are all overridden",
                   found="; ".join(f"{x.kind}@{x.line}" for x in brk))
+
+
+def _plain(*vals) -> bool:
+    """closed expressions over loop variables, attributes, constants and operators: nothing the reconstruction gave up on, no call
+    whose meaning this module does not know.  Only such a value may be judged WRONG."""
+    from ..valueflow import walk as _w
+    for v in vals:
+        if v is None:
+            return False
+        for x in _w(v):
+            if isinstance(x, tuple) and x and isinstance(x[0], str):
+                if x[0] in ("unknown", "acc", "carried", "lambda", "after"):
+                    return False
+                if x[0] == "call" and not (x[1][0] == "global" and x[1][1] in ("all", "any", "enumerate", "zip", "len", "int", "str", "Species", "list", "tuple")):
+                    return False
+                if x[0] == "meth" and x[2] not in ("items", "keys", "values", "get", "index", "copy"):
+                    return False
+    return True
+
+
+def _three(ctx, ok, sure, rule, key, where, msg, expected=None, found=None):
+    if ok:
+        ctx.ok(rule, key, where, msg)
+    elif sure:
+        ctx.bad(rule, key, where, msg, expected, found)
+    else:
+        ctx.unrec(rule, key, where, f"not a shape this rule reads ({msg[:80]}): {str(found)[:140]}")
+    return bool(ok)
+
+
+def _index_keyed_tables(fn):
+    """[(line, source)] of tables with one slot per file index built in the function: `{r.idxfromfile: .. for ..}`, `dict(zip(<idxfromfile
+    of the reactions>, ..))`, `t[r.idxfromfile] = ..` -- a multi-map (`t.setdefault(r.idxfromfile, []).append(..)`, lists as values) is not one"""
+    out = []
+    for n in ast.walk(fn):
+        if isinstance(n, ast.DictComp) and isinstance(n.key, ast.Attribute) and n.key.attr == "idxfromfile" and not isinstance(n.value, (ast.List, ast.ListComp)):
+            out.append((n.lineno, ast.unparse(n)[:80]))
+        elif isinstance(n, ast.Assign) and len(n.targets) == 1 and isinstance(n.targets[0], ast.Subscript) and isinstance(n.targets[0].slice, ast.Attribute) \
+                and n.targets[0].slice.attr == "idxfromfile" and not isinstance(n.value, (ast.List, ast.ListComp)):
+            out.append((n.lineno, ast.unparse(n)[:80]))
+    return out
 
 
 def _truthiness_selection(ctx, m, extra=()):
@@ -418,6 +529,12 @@ def _truthiness_selection(ctx, m, extra=()):
 def _r2(ctx):
     pkg = package(ctx.tree)
     n = 0
+    has_int_setter = False
+    rc = pkg.classes.get("Reaction")
+    if rc is not None:
+        for fn_ in rc.node.body:
+            if isinstance(fn_, ast.FunctionDef) and fn_.name == "idxfromfile" and any(ast.unparse(d).endswith(".setter") for d in fn_.decorator_list):
+                has_int_setter = any(isinstance(c, ast.Call) and isinstance(c.func, ast.Name) and c.func.id == "int" for c in ast.walk(fn_))
     for f in pkg.files:
         mod = pkg.modules[f]
         for node in ast.walk(mod):
@@ -427,8 +544,11 @@ def _r2(ctx):
                         n += 1
                         v = node.value
                         src = ast.unparse(v)
-                        ok = (isinstance(v, ast.Call) and isinstance(v.func, ast.Name) and v.func.id == "int") or \
+                        ok = (isinstance(v, ast.Call) and isinstance(v.func, ast.Name) and v.func.id in ("int", "len")) or \
                             (isinstance(v, ast.Constant) and isinstance(v.value, int))
+                        # (a property setter of the class that converts with int(..) makes every assignment an int)
+                        if not ok and has_int_setter and isinstance(t.value, ast.Name) and t.value.id == "self":
+                            ok = True
                         role = src[:40]
                         if isinstance(v, ast.Name):
                             fn = next((x for x in ast.walk(mod) if isinstance(x, ast.FunctionDef) and node in list(ast.walk(x))), None)
@@ -438,9 +558,40 @@ def _r2(ctx):
                             is_param = fn is not None and v.id == "idxfromfile" and v.id in [a.arg for a in fn.args.args]
                             ok = is_counter or is_param
                             role = "<enumerate counter>" if is_counter else v.id
-                        ctx.check(ok, "R2", f"{f}:idxfromfile = {role}", (f, node.lineno),
-                                  "idxfromfile is assigned an int (int(...) / enumerate counter / int parameter)", found=src[:60])
+                        # understood and wrong: a text value (str(..), a string literal, an f-string, a piece of a split line); a local of
+                        # other origin / another call is not read here
+                        texty = (isinstance(v, ast.Call) and isinstance(v.func, ast.Name) and v.func.id in ("str", "repr", "format")) or isinstance(v, ast.JoinedStr) or \
+                            (isinstance(v, ast.Constant) and isinstance(v.value, (str, float))) or \
+                            (isinstance(v, ast.Call) and isinstance(v.func, ast.Attribute) and v.func.attr in ("strip", "split", "format", "join", "lower", "upper"))
+                        _three(ctx, ok, texty, "R2", f"{f}:idxfromfile = {role}", (f, node.lineno),
+                               "idxfromfile is assigned an int (int(...) / enumerate counter / int parameter)", found=src[:60])
     ctx.floor("R2", "idxfromfile definitions", n, 6)
+    # who writes the index: the parsers / constructors of the reaction classes (the file's own index field) and Network.reindex (the
+    # position at rendering time, for networks without any index).  A position handed out anywhere else -- when a reaction is added,
+    # say -- is not the position the reaction has when the rate statements are generated (reactions are removed, merged, re-ordered).
+    for f in pkg.files:
+        if f.startswith("naunet/reactions/") or f.startswith("naunet/examples/"):
+            continue
+        for fn_ in [x for x in ast.walk(pkg.modules[f]) if isinstance(x, (ast.FunctionDef, ast.AsyncFunctionDef))]:
+            for node in ast.walk(fn_):
+                if isinstance(node, (ast.Assign, ast.AugAssign)):
+                    for t in (node.targets if isinstance(node, ast.Assign) else [node.target]):
+                        if isinstance(t, ast.Attribute) and t.attr in ("idxfromfile", "_idxfromfile") and fn_.name != "reindex":
+                            ctx.bad("R2", f"{f}:{fn_.name} writes idxfromfile", (f, node.lineno), f"`{fn_.name}` assigns `{ast.unparse(node)[:70]}`: an index handed out outside the file parsers and "
+                                    "Network.reindex() is neither the file's index nor the position at rendering time -- a rate modifier keyed by it reaches another reaction (and the "
+                                    "`all un-indexed` test that triggers re-indexing no longer holds)", expected="idxfromfile written by the reaction parsers and by Network.reindex only", found=ast.unparse(node)[:80])
+    # a setter / converter of the index never decides by TRUTHINESS of the raw value: the index 0 is a valid index
+    for f in pkg.files:
+        if not f.startswith("naunet/reactions/"):
+            continue
+        for node in ast.walk(pkg.modules[f]):
+            if isinstance(node, ast.Assign) and any(isinstance(t, ast.Attribute) and t.attr in ("idxfromfile", "_idxfromfile") for t in node.targets) and isinstance(node.value, ast.IfExp):
+                t_ = node.value.test
+                while isinstance(t_, ast.UnaryOp) and isinstance(t_.op, ast.Not):
+                    t_ = t_.operand
+                if isinstance(t_, (ast.Name, ast.Attribute)):
+                    ctx.bad("R2", f"{f}:idxfromfile chosen by truthiness", (f, node.lineno), f"`{ast.unparse(node)[:80]}` decides by the truthiness of `{ast.unparse(t_)}`: the integer index 0 "
+                            "counts as `no index` and becomes -1, so a modifier keyed by 0 never meets its reaction", expected="a test for the empty field (`== \"\"` / `is None`)", found=ast.unparse(node.value)[:80])
     # parameter default and annotation
     init = pkg.method("Reaction", "__init__")
     a = init.args
@@ -457,7 +608,8 @@ def _r2(ctx):
     else:
         ctx.missing("R2", "Reaction.__init__:idxfromfile", ("naunet/reactions/reaction.py", init.lineno), "parameter idxfromfile vanished")
     # reader: int(key)
-    h = pkg.method("RenderCommand", "handle")
+    from .c20 import _render_handle
+    h = _render_handle(pkg)
     ctx.saw(RENDER, "RenderCommand.handle")
     conv = None
     # by role: the local handed to Network(rate_modifier=...)
@@ -474,6 +626,7 @@ def _r2(ctx):
                         conv = ast.copy_location(ast.Assign(targets=[ast.Name(id="<keyword rate_modifier>", ctx=ast.Store())], value=k.value), c)
                         conv._inline = True
     okc = False
+    kname = None
     if conv is not None:
         g0 = conv.value.generators[0]
         kname = g0.target.elts[0].id if isinstance(g0.target, ast.Tuple) and isinstance(g0.target.elts[0], ast.Name) else None
@@ -484,15 +637,19 @@ def _r2(ctx):
         ctx.unrec("R2", "RenderCommand.handle:int(key)", (RENDER, h.lineno), "cannot tell how the keys of the configured rate_modifier table are converted on the way to Network(rate_modifier=..): "
                   + "; ".join(ast.unparse(n.value)[:60] for n in srcs)[:160])
     else:
-        ctx.check(okc, "R2", "RenderCommand.handle:int(key)", (RENDER, conv.lineno if conv else h.lineno),
-                  "TOML keys (strings) are converted to int before they are compared with idxfromfile",
-                  expected="{int(key): value for key, value in rate_modifier.items()}", found=ast.unparse(conv.value)[:90] if conv else "no conversion")
+        # understood and wrong: the table handed on as it is / copied with its string keys / filtered; another key expression is not read here
+        sure = conv is None or bool(conv.value.generators[0].ifs) or ast.unparse(conv.value.key) in (kname, f"str({kname})")
+        _three(ctx, okc, sure, "R2", "RenderCommand.handle:int(key)", (RENDER, conv.lineno if conv else h.lineno),
+               "TOML keys (strings) are converted to int before they are compared with idxfromfile",
+               expected="{int(key): value for key, value in rate_modifier.items()}", found=ast.unparse(conv.value)[:90] if conv else "no conversion")
     # the Network(...) call receives the converted dict
     if conv is not None and not getattr(conv, "_inline", False):
         later = [c for c in ast.walk(h) if isinstance(c, ast.Call) and ast.unparse(c.func) == "Network" and c.lineno > conv.lineno]
         ok = any(any(k.arg == "rate_modifier" and ast.unparse(k.value) == ast.unparse(conv.targets[0]) for k in c.keywords) for c in later)
-        ctx.check(ok, "R2", "RenderCommand.handle:Network(rate_modifier=)", (RENDER, later[0].lineno if later else conv.lineno),
-                  "the converted dictionary is what Network(...) receives")
+        # understood and wrong: Network(rate_modifier=<another local>); no such keyword at all (handed on otherwise) is not read here
+        other = any(k.arg == "rate_modifier" and isinstance(k.value, ast.Name) and k.value.id != ast.unparse(conv.targets[0]) for c in later for k in c.keywords)
+        _three(ctx, ok, other, "R2", "RenderCommand.handle:Network(rate_modifier=)", (RENDER, later[0].lineno if later else conv.lineno),
+               "the converted dictionary is what Network(...) receives", found="; ".join(ast.unparse(k.value)[:40] for c in later for k in c.keywords if k.arg == "rate_modifier"))
     # writer: string keys
     from .c20 import _content_writer
     cfn = _content_writer(pkg)
@@ -512,14 +669,18 @@ def _r2(ctx):
             # neither a comprehension (read above) nor the stored table handed on as it is (integer keys: a finding): not a shape this rule reads
             ctx.unrec("R2", "BaseConfiguration.content:str(key)", (CONF, w.lineno), f"cannot tell whether the rate-modifier keys are written as strings: {ast.unparse(v)[:100]}")
         else:
-            ctx.check(okw, "R2", "BaseConfiguration.content:str(key)", (CONF, w.lineno),
-                      "every rate-modifier entry is written, keys as strings (TOML keys; integer keys make tomlkit raise), the inverse of the reader's int(key)",
-                      expected="{str(key): value for key, value in self._ratemodifier.items()}", found=ast.unparse(v)[:90])
+            # understood and wrong: the stored table handed on with its integer keys, a copy with the keys as they are, a filtered copy
+            names_ = [x.id for x in ast.walk(v.generators[0].target) if isinstance(x, ast.Name)] if isinstance(v, ast.DictComp) else []
+            sure = not isinstance(v, ast.DictComp) or bool(v.generators[0].ifs) or len(v.generators) != 1 or (bool(names_) and ast.unparse(v.key) == names_[0])
+            _three(ctx, okw, sure, "R2", "BaseConfiguration.content:str(key)", (CONF, w.lineno),
+                   "every rate-modifier entry is written, keys as strings (TOML keys; integer keys make tomlkit raise), the inverse of the reader's int(key)",
+                   expected="{str(key): value for key, value in self._ratemodifier.items()}", found=ast.unparse(v)[:90])
 
 
 def _r3(ctx):
     pkg = package(ctx.tree)
-    fn = pkg.method("TemplateLoader", "render")
+    # (the decision may have been moved into a helper of the class: put back first; _prepare_ode_content stays the call the rule is about)
+    fn = pkg.expanded("TemplateLoader", "render", keep=("_prepare_ode_content", "_prepare_renorm_content", "_render", "_prepare_contents"))
     ctx.saw(FILE, "TemplateLoader.render")
     fl = Flow(fn, FILE)
     calls = [f for f in fl.facts if f.kind == "call" and f.target == "reindex"]
@@ -542,10 +703,10 @@ def _r3(ctx):
                     okg = not ifs and base == ("attr", NET, "reactions") and body in (
                         ("cmp", ("Eq",), (("attr", bv, "idxfromfile"), ("unop", "USub", ("const", 1)))),
                         ("cmp", ("Eq",), (("attr", bv, "idxfromfile"), ("const", -1))))
-        ctx.check(okg, "R3", "render:reindex-guard", (FILE, c.line), "reindex runs exactly when every reaction of network.reactions is un-indexed (idxfromfile == -1)",
-                  expected="if all([reac.idxfromfile == -1 for reac in network.reactions])", found="; ".join(show(x)[:120] for x, _ in g))
-        ctx.check(c.value[1] == NET and c.seq < p[4] and not p[1] and not p[2], "R3", "render:reindex-before-prepare", (FILE, c.line),
-                  "network.reindex() precedes the single, unconditional _prepare_ode_content call", found=f"reindex seq {c.seq}, prepare seq {p[4]}")
+        _three(ctx, okg, bool(g) and _plain(*[x for x, _ in g]) and not c.loops, "R3", "render:reindex-guard", (FILE, c.line), "reindex runs exactly when every reaction of network.reactions is un-indexed (idxfromfile == -1)",
+               expected="if all([reac.idxfromfile == -1 for reac in network.reactions])", found="; ".join(show(x)[:120] for x, _ in g))
+        _three(ctx, c.value[1] == NET and c.seq < p[4] and not p[1] and not p[2], c.value[1] == NET and not p[1] and not p[2], "R3", "render:reindex-before-prepare", (FILE, c.line),
+               "network.reindex() precedes the single, unconditional _prepare_ode_content call", found=f"reindex seq {c.seq}, prepare seq {p[4]}")
         # arguments: rate_modifier = network.rate_modifier (same object the user set)
         # bound to the callee's parameters, whether passed by position or by keyword
         params = [a.arg for a in pkg.method("TemplateLoader", "_prepare_ode_content").args.args][1:]
@@ -558,8 +719,27 @@ def _r3(ctx):
         kwpar = params[1] if len(params) > 1 else None       # the species keywords: second parameter of the generator
         ok = not extra and len(params) == 4 and set(given) == set(params) and simp(given.get("rate_modifier", ())) == ("attr", NET, "rate_modifier") and \
             simp(given.get("ode_modifier", ())) == ("attr", NET, "ode_modifier") and simp(given[kwpar]) == ("attr", NET, "_species_kwargs")
-        ctx.check(ok, "R3", "render:modifier-args", (FILE, p[3]), "_prepare_ode_content receives network._species_kwargs, network.rate_modifier, network.ode_modifier",
-                  found=", ".join(f"{k_}={show(simp(a))[:40]}" for k_, a in given.items()))
+        # understood and wrong: a modifier table that goes through a helper which DROPS entries on some return
+        from .c20 import carries_whole
+        for pname in ("rate_modifier", "ode_modifier"):
+            gv = given.get(pname)
+            gs = simp(gv) if gv is not None else None
+            if gs is not None and gs[0] == "comp" and any(g_[2] for g_ in gs[3]) and any(x == ("attr", NET, pname) for x in walk(gs)):
+                ctx.bad("R3", f"render:{pname} filtered on the way", (FILE, p[3]), f"the network's {pname} table is filtered before it is handed to _prepare_ode_content ({show(gs)[:90]}): "
+                        "the keys are matched against idxfromfile only inside the generator, after re-indexing -- what is dropped before is a modifier the user asked for",
+                        expected=f"network.{pname} itself", found=show(gs)[:100])
+            if gv is not None and gv[0] == "meth" and gv[1] in (("param", "self"), ("param", "cls")):
+                callee = pkg.resolve("TemplateLoader", gv[2])[1]
+                rets = [r_ for r_ in ast.walk(callee) if isinstance(r_, ast.Return) and r_.value is not None] if callee is not None else []
+                flt = [r_ for r_ in rets if carries_whole(r_.value)[0] == "filtered"]
+                if flt:
+                    ctx.bad("R3", f"render:{pname} filtered on the way", (FILE, flt[0].lineno), f"`{gv[2]}` stands between the network's {pname} table and _prepare_ode_content and drops entries "
+                            f"(`{ast.unparse(flt[0].value)[:70]}`): the keys are matched against idxfromfile only inside the generator, after re-indexing -- what is dropped before "
+                            "(against indices collected earlier) is a modifier the user asked for", expected=f"network.{pname} itself", found=ast.unparse(flt[0].value)[:90])
+        # understood and wrong: every argument is an attribute of the network, but not the one its parameter stands for
+        sure = not extra and all(simp(a)[0] == "attr" and simp(a)[1] == NET for k_, a in given.items() if k_ != params[0])
+        _three(ctx, ok, sure, "R3", "render:modifier-args", (FILE, p[3]), "_prepare_ode_content receives network._species_kwargs, network.rate_modifier, network.ode_modifier",
+               found=", ".join(f"{k_}={show(simp(a))[:40]}" for k_, a in given.items()))
     rfn = pkg.method("Network", "reindex")
     ctx.saw(NETWORK, "Network.reindex")
     rfl = Flow(rfn, NETWORK)
@@ -570,8 +750,10 @@ def _r3(ctx):
         base = ("attr", ("param", "self"), "reaction_list")
         ok = simp(lp.iter) == ("call", ("global", "enumerate"), (base,), ()) and st[0].value == ("idx", base, lp.id) and \
             st[0].extra.get("obj") == ("elem", base, lp.id) and not st[0].guards
-    ctx.check(ok, "R3", "Network.reindex", (NETWORK, rfn.lineno), "reindex sets reac.idxfromfile = position for every reaction of reaction_list",
-              found="; ".join(show(f.value) for f in st))
+    # understood and wrong: one store in one loop over the reaction list whose value / guard differs (position + 1, a filtered pass)
+    sure = len(st) == 1 and len(st[0].loops) == 1 and _plain(st[0].value, simp(st[0].loops[0].iter)) and _plain(*[c_ for c_, _ in st[0].guards])
+    _three(ctx, ok, sure, "R3", "Network.reindex", (NETWORK, rfn.lineno), "reindex sets reac.idxfromfile = position for every reaction of reaction_list",
+           found="; ".join(show(f.value) for f in st))
     pr = pkg.method("Network", "reactions")
     # by value: on every path on which reaction_list is non-empty the getter returns reaction_list itself (`A or [dummy]`,
     # `A if A else [dummy]`, an early return either way round, a local defaulted when empty)
@@ -588,15 +770,15 @@ def _r3(ctx):
         return [(v, [norm_guard((simp(c), p_)) for c, p_ in conds])]
     allc = [x for f in pfl.facts if f.kind == "return" for x in cases(f.value, list(f.guards))]
     okr = bool(allc) and any(v == A for v, _ in allc) and all(v == A or (A, False) in g for v, g in allc)
-    ctx.check(okr, "R3", "Network.reactions", (NETWORK, pr.lineno),
-              "network.reactions is reaction_list itself whenever it is non-empty (same order as reindex)", found="; ".join(show(v)[:60] for v, _ in allc)[:160])
+    _three(ctx, okr, bool(allc) and _plain(*[v for v, _ in allc]), "R3", "Network.reactions", (NETWORK, pr.lineno),
+           "network.reactions is reaction_list itself whenever it is non-empty (same order as reindex)", found="; ".join(show(v)[:60] for v, _ in allc)[:160])
 
 
 def _r4(ctx, m):
     sites = [s for s in m.sites if s.array == "rhs" and s.kind == "mod"]
     W = (FILE, m.func.lineno)
     if len(sites) != 1:
-        (ctx.bad if sites else ctx.missing)("R4", "rhs:mod:count", W, f"expected exactly one ODE-modifier store into rhs, found {len(sites)}")
+        (ctx.unrec if sites else ctx.missing)("R4", "rhs:mod:count", W, f"expected exactly one ODE-modifier store into rhs, found {len(sites)}")
     OM = ("param", "ode_modifier")
     for s in sites:
         ok = report_problems(ctx, "R4", s)
@@ -606,41 +788,51 @@ def _r4(ctx, m):
         f = s.fact
         good = True
         if len(f.loops) != 2:
-            ctx.bad("R4", f"{site_key(s)}:loops", where(s), f"expected the modifier loop and the (factor, dependencies) loop, found {len(f.loops)} loops")
+            ctx.unrec("R4", f"{site_key(s)}:loops", where(s), f"expected the modifier loop and the (factor, dependencies) loop, found {len(f.loops)} loops")
             continue
         L1, L2 = f.loops
         it2 = simp(L2.iter)
         expr = ("val", OM, L1.id)
         want_zip = ("call", ("global", "zip"), (("sub", expr, ("const", "factors")), ("sub", expr, ("const", "reactants"))), ())
         if it2 != want_zip:
-            ctx.bad("R4", f"{site_key(s)}:pairing", where(s), "factors and dependency lists are not paired position by position",
-                    expected="zip(expr['factors'], expr['reactants'])", found=show(it2)[:120])
+            # understood and wrong: a zip of two entries of the modifier read by literal keys -- other keys, or another order
+            zsure = it2[0] == "call" and it2[1] == ("global", "zip") and len(it2[2]) == 2 and all(a[0] == "sub" and a[1] == expr and a[2][0] == "const" for a in it2[2])
+            _three(ctx, False, zsure, "R4", f"{site_key(s)}:pairing", where(s), "factors and dependency lists are paired position by position",
+                   expected="zip(expr['factors'], expr['reactants'])", found=show(it2)[:120])
             good = False
         # row: Species(key, **kw)
         kw = None
         if s.row and s.row[0] == "species":
             b = match(("call", ("global", "Species"), (("key", OM, L1.id),), V("kw")), s.row[1])
             if not b:
-                ctx.bad("R4", f"{site_key(s)}:row", where(s), "the modified row is not species.index(Species(<modifier key>, **species_kwargs))", found=show(s.row[1])[:120])
+                # understood and wrong: a Species(..) built from something else than the modifier's key
+                _three(ctx, False, s.row[1][0] == "call" and s.row[1][1] == ("global", "Species") and _plain(s.row[1]), "R4", f"{site_key(s)}:row", where(s),
+                       "the modified row is species.index(Species(<modifier key>, **species_kwargs))", found=show(s.row[1])[:120])
                 good = False
             else:
                 kw = b["kw"]
         else:
+            ctx.unrec("R4", f"{site_key(s)}:row", where(s), f"the row of the modifier store is not read as species.index(..): {show(s.row)[:100] if s.row else None}")
             good = False
         if s.sign != +1:
             ctx.bad("R4", f"{site_key(s)}:sign", where(s), "modifier term must be added", expected="+", found=s.text)
             good = False
         if s.coeff != ("factor", ("elem", ("sub", expr, ("const", "factors")), L2.id)):
-            ctx.bad("R4", f"{site_key(s)}:factor", where(s), "the coefficient is not this pair's factor", found=show(s.coeff)[:100])
+            _three(ctx, False, bool(s.coeff) and _plain(s.coeff), "R4", f"{site_key(s)}:factor", where(s), "the coefficient is this pair's factor", found=show(s.coeff)[:100] if s.coeff else None)
             good = False
         if s.seq:
             base_ok = s.seq["base"] == ("elem", ("sub", expr, ("const", "reactants")), L2.id)
             body_ok = kw is not None and s.seq["body"] == Y(("call", ("global", "Species"), (s.seq["bv"],), kw))
             if not base_ok or not body_ok or s.seq["ifs"]:
-                ctx.bad("R4", f"{site_key(s)}:deps", where(s), "the product is not one y[IDX_<alias>] per listed dependency of this pair (with multiplicity)",
-                        expected="'*'.join(f'y[IDX_{Species(d, **kw).alias}]' for d in dep)", found=f"over {show(s.seq['base'])[:60]}: {show(s.seq['body'])[:80]}")
+                # understood and wrong: a filtered / de-duplicated / other list of dependencies, or another factor per dependency
+                dsure = bool(s.seq["ifs"]) or (kw is not None and _plain(s.seq["body"]) and (_plain(s.seq["base"]) or
+                        (s.seq["base"][0] == "call" and s.seq["base"][1][0] == "global" and s.seq["base"][1][1] in ("set", "sorted", "frozenset", "dict", "list"))
+                        or (s.seq["base"][0] == "meth" and s.seq["base"][2] == "fromkeys")))
+                _three(ctx, False, dsure, "R4", f"{site_key(s)}:deps", where(s), "the product is one y[IDX_<alias>] per listed dependency of this pair (with multiplicity)",
+                       expected="'*'.join(f'y[IDX_{Species(d, **kw).alias}]' for d in dep)", found=f"over {show(s.seq['base'])[:60]}: {show(s.seq['body'])[:80]}")
                 good = False
         else:
+            ctx.unrec("R4", f"{site_key(s)}:deps", where(s), f"the product of abundances of the modifier term is not read as a join over the dependencies: {s.text!r}")
             good = False
         if good:
             ctx.ok("R4", site_key(s), where(s), f"rhs[species.index(Species(name))] += {s.text!r}")
@@ -730,8 +922,10 @@ def _r5(ctx, m):
     ctx.floor("R5", "example modules defining ode_modifier", nmod, 6)
     ref = {"factors", "reactants"}
     for (f, label), ks in sorted(sets.items()):
-        ctx.check(ks == ref, "R5", f"ode-modifier keys:{label}:{f.split('/')[-2] if 'examples' in f else ''}", (f, 0),
-                  f"{label} uses exactly the keys 'factors' and 'reactants'", expected=str(sorted(ref)), found=str(sorted(ks)))
+        # understood and wrong: a key nobody else uses (a typo, a renamed field on one side only); keys that were merely not found at a
+        # place spelled another way are not evidence
+        _three(ctx, ks == ref, bool(ks - ref), "R5", f"ode-modifier keys:{label}:{f.split('/')[-2] if 'examples' in f else ''}", (f, 0),
+               f"{label} uses exactly the keys 'factors' and 'reactants'", expected=str(sorted(ref)), found=str(sorted(ks)))
     ctx.floor("R5", "places using the modifier dictionary keys", len(sets), 5)
 
 
@@ -746,7 +940,10 @@ MUTANTS = [
     {"name": "render-prunes-rate-modifier", "file": RENDER, "old": '        dupes, dupidx, first = net.find_duplicate_reaction(mode="short")', "new": '        net.rate_modifier = {k: v for k, v in rate_modifier.items() if k >= 0}\n        dupes, dupidx, first = net.find_duplicate_reaction(mode="short")', "rules": ["R7"]},
     {"name": "network-stores-filtered", "file": NETWORK, "old": "        self._rate_modifier = rate_modifier.copy() if rate_modifier else {}", "new": "        self._rate_modifier = {k: v for k, v in rate_modifier.items() if v} if rate_modifier else {}", "rules": ["R7"]},
     {"name": "override-neq", "file": T, "old": "if key == reac.idxfromfile:", "new": "if key != reac.idxfromfile:", "rules": ["R1"]},
-    {"name": "override-break", "file": T, "old": '                    rateeqns[idx] = f"{rate_sym}[{idx}] = {value};"\n', "new": '                    rateeqns[idx] = f"{rate_sym}[{idx}] = {value};"\n                    break\n', "rules": ["R1"]},
+    {"name": "override-break", "file": T, "old": '        for idx, reac in enumerate(reactions):\n            for key, value in rate_modifier.items():\n                if key == reac.idxfromfile:\n                    logging.warning(f"Overwirte the rate of: `{reac}` with {value}")\n                    rateeqns[idx] = f"{rate_sym}[{idx}] = {value};"\n',
+     "new": '        for key, value in rate_modifier.items():\n            for idx, reac in enumerate(reactions):\n                if key == reac.idxfromfile:\n                    logging.warning(f"Overwirte the rate of: `{reac}` with {value}")\n                    rateeqns[idx] = f"{rate_sym}[{idx}] = {value};"\n                    break\n', "rules": ["R1"]},
+    {"name": "override-position-table", "file": T, "old": '        for idx, reac in enumerate(reactions):\n            for key, value in rate_modifier.items():\n                if key == reac.idxfromfile:\n                    logging.warning(f"Overwirte the rate of: `{reac}` with {value}")\n                    rateeqns[idx] = f"{rate_sym}[{idx}] = {value};"\n',
+     "new": '        where = {}\n        for idx, reac in enumerate(reactions):\n            where[reac.idxfromfile] = idx\n        for key, value in rate_modifier.items():\n            if key in where:\n                rateeqns[where[key]] = f"{rate_sym}[{where[key]}] = {value};"\n', "rules": ["R1"]},
     {"name": "override-slot-shift", "file": T, "old": 'rateeqns[idx] = f"{rate_sym}[{idx}] = {value};"', "new": 'rateeqns[idx + 1] = f"{rate_sym}[{idx}] = {value};"', "rules": ["R1"]},
     {"name": "override-k-key", "file": T, "old": 'rateeqns[idx] = f"{rate_sym}[{idx}] = {value};"', "new": 'rateeqns[idx] = f"{rate_sym}[{key}] = {value};"', "rules": ["R1"]},
     {"name": "reindex-after-prepare", "edits": [
@@ -779,9 +976,20 @@ MUTANTS = [
     {"name": "modifier-generator-wrong-factor", "edits": [{"file": T, "old": 'from typing import TYPE_CHECKING\n', "new": 'from typing import TYPE_CHECKING, NamedTuple\n'}, {"file": T, "old": 'class TemplateLoader:\n', "new": 'class _ModRec(NamedTuple):\n    slot: int\n    coef: str\n    deps: list\n    syms: list\n\n\nclass TemplateLoader:\n'}, {"file": T, "old": '        for sname, expr in ode_modifier.items():\n            spec = Species(sname, **species_kwargs)\n            sidx = species.index(spec)\n            for fact, dep in zip(expr["factors"], expr["reactants"]):\n                depspec = [Species(d, **species_kwargs) for d in dep]\n                depsym = [f"y[IDX_{d.alias}]" for d in depspec]\n                depsym_mul = "*".join(depsym)\n\n                rhs[sidx] += f" + ({fact}) * {depsym_mul}"\n\n                for dspec in depspec:\n                    didx = species.index(dspec)\n                    depsymcopy = depsym.copy()\n                    depsymcopy.remove(y[didx])\n                    depsymcopy_mul = "*".join(depsymcopy)\n\n                    term = f" + {\'*\'.join([f\'({fact})\', *depsymcopy])}"\n                    jacrhs[sidx * n_eqns + didx] += term\n', "new": '        for rec in self._modifier_records(species, species_kwargs, ode_modifier):\n            rhs[rec.slot] += f" + ({rec.coef}) * {\'*\'.join(rec.syms)}"\n            for dspec in rec.deps:\n                didx = species.index(dspec)\n                rest = rec.syms.copy()\n                rest.remove(y[didx])\n                term = f" + {\'*\'.join([f\'({rec.coef})\', *rest])}"\n                jacrhs[rec.slot * n_eqns + didx] += term\n'}, {"file": T, "old": '    def _assign_rates(\n', "new": '    @staticmethod\n    def _modifier_records(species, species_kwargs, ode_modifier):\n        for target, spec_ in ode_modifier.items():\n            slot = species.index(Species(target, **species_kwargs))\n            for coef, names in zip(spec_["factors"], spec_["reactants"]):\n                deps = [Species(n_, **species_kwargs) for n_ in names]\n                yield _ModRec(slot, target, deps, [f"y[IDX_{d_.alias}]" for d_ in deps])\n\n    def _assign_rates(\n'}], "rules": ['R4']},
     {"name": "reindex-sentinel-constant-zero", "edits": [{"file": T, "old": '    def __init__(self, solver: str, method: str, device: str) -> None:\n', "new": '    UNSET = 0\n\n    def __init__(self, solver: str, method: str, device: str) -> None:\n'}, {"file": T, "old": '        reactindices = [reac.idxfromfile for reac in network.reactions]\n        if all([idx == -1 for idx in reactindices]):\n', "new": '        reactindices = [reac.idxfromfile for reac in network.reactions]\n        nolabel = [reac.idxfromfile == self.UNSET for reac in network.reactions]\n        if all(nolabel):\n'}], "rules": ['R3']},
     {"name": "statement-percent-format-key", "file": T, "old": 'rateeqns[idx] = f"{rate_sym}[{idx}] = {value};"', "new": 'rateeqns[idx] = "%s[%d] = %s;" % (rate_sym, key, value)', "rules": ["R1"]},
+    # hardening wave 3: the rules that replaced "unrecognised shape = violation"
+    {"name": "add-reaction-hands-out-position", "file": NETWORK, "old": "        self.reaction_list.append(reaction)\n        new_reactants = set(reaction.reactants).difference(self._reactants)\n", "new": "        if reaction.idxfromfile == -1:\n            reaction.idxfromfile = len(self.reaction_list)\n        self.reaction_list.append(reaction)\n        new_reactants = set(reaction.reactants).difference(self._reactants)\n", "rules": ["R2"]},
+    {"name": "index-zero-read-as-no-index", "file": "naunet/reactions/reaction.py", "old": "        self.idxfromfile = int(idx)\n", "new": "        self.idxfromfile = int(idx) if idx else -1\n", "rules": ["R2"]},
+    {"name": "render-drops-unmatched-modifiers", "edits": [
+        {"file": T, "old": "    def _assign_rates(\n", "new": "    @staticmethod\n    def _matching(table, indices):\n        known = set(indices)\n        return {k: v for k, v in table.items() if k in known}\n\n    def _assign_rates(\n"},
+        {"file": T, "old": "        rate_modifier = network.rate_modifier\n", "new": "        rate_modifier = self._matching(network.rate_modifier, reactindices)\n"}], "rules": ["R3"]},
     {"name": "network-setattr-filtered-table", "file": NETWORK, "old": "        self._rate_modifier = rate_modifier.copy() if rate_modifier else {}", "new": '        setattr(self, "_rate_modifier", {k: v for k, v in rate_modifier.items() if v} if rate_modifier else {})', "rules": ["R7"]},
 ]
 BENIGN = [
+    # (a break out of the loop over the modifier keys skips only the remaining keys for this reaction: keys are distinct)
+    {"name": "override-break-after-the-matching-key", "file": T, "old": '                    rateeqns[idx] = f"{rate_sym}[{idx}] = {value};"\n', "new": '                    rateeqns[idx] = f"{rate_sym}[{idx}] = {value};"\n                    break\n'},
+    {"name": "override-loops-swapped", "file": T, "old": '        for idx, reac in enumerate(reactions):\n            for key, value in rate_modifier.items():\n                if key == reac.idxfromfile:\n',
+     "new": '        for key, value in rate_modifier.items():\n            for idx, reac in enumerate(reactions):\n                if key == reac.idxfromfile:\n'},
+    {"name": "network-stores-table-or-empty", "file": NETWORK, "old": "        self._rate_modifier = rate_modifier.copy() if rate_modifier else {}", "new": "        self._rate_modifier = dict(rate_modifier or {})"},
     {"name": "init-ode-modifier-setdefault", "file": INIT, "old": '                if ode_modifier.get(key):\n                    ode_modifier[key]["factors"].append(fact)\n                    ode_modifier[key]["reactants"].append(rdep)\n                else:\n                    ode_modifier[key] = {\n                        "factors": [fact],\n                        "reactants": [rdep],\n                    }\n',
      "new": '                entry = ode_modifier.setdefault(key, {"factors": [], "reactants": []})\n                entry["factors"].append(fact)\n                entry["reactants"].append(rdep)\n'},
     {"name": "network-stores-dict-copy", "file": NETWORK, "old": "        self._rate_modifier = rate_modifier.copy() if rate_modifier else {}", "new": "        self._rate_modifier = dict(rate_modifier) if rate_modifier else {}"},
